@@ -2167,6 +2167,10 @@ void register_vec_1()
     add_static<sim::TrackedDA, 4>("TrackedDA");
     add_inplace<sim::TrackedDA, 2>("TrackedDA");
     add_inplace<sim::TrackedDA, 4>("TrackedDA");
+    // over-aligned elements (alignas(32)): the storage must be aligned for them and the element stride is 32 bytes
+    add_static<sim::TrackedOA, 3>("TrackedOA");
+    add_inplace<sim::TrackedOA, 2>("TrackedOA");
+    add_stack<sim::TrackedOA, 2>("TrackedOA");
 }
 #elif SIM_PART == 2
 void register_vec_2() { add_all<sim::TrackedMoveOnly>("TrackedMoveOnly"); }
